@@ -95,12 +95,30 @@ impl TextDocument {
     }
 
     fn position_to_index(&self, position: Position) -> usize {
-        let line_offset = self
+        let line = position.line as usize;
+        let line_start = self
             .line_offsets
-            .get(position.line as usize)
+            .get(line)
             .copied()
             .unwrap_or(self.content.len());
-        line_offset + position.character as usize
+        let line_end = self
+            .line_offsets
+            .get(line + 1)
+            .copied()
+            .unwrap_or(self.content.len());
+        // `character` counts UTF-16 code units (the protocol's default position encoding, no other
+        // is negotiated), while `content` is UTF-8: walk the line instead of adding the two.
+        // A character beyond the end of the line refers to the end of the line.
+        let line_text = &self.content[line_start..line_end];
+        let mut units = 0;
+        for (index, c) in line_text.char_indices() {
+            let at_line_end = c == '\n' || (c == '\r' && line_text[index + 1..].starts_with('\n'));
+            if units >= position.character as usize || at_line_end {
+                return line_start + index;
+            }
+            units += c.len_utf16();
+        }
+        line_end
     }
 
     fn calculate_line_offsets(text: &str) -> Vec<usize> {
